@@ -39,7 +39,7 @@ func hostileCorpus(seed int64) ([][]byte, map[string]reflect.Type) {
 		zoo.CustomHolder{Title: "t", Items: []zoo.Custom{{Key: "k", Val: "v"}}, One: zoo.Custom{Key: "o"}},
 		wideElems(18), zoo.Scalars{I: 1, S: "s", Bin: []byte{9}, T: time.Unix(5, 5000000), F64: 1.25},
 		zoo.Conts{MS: map[string]string{"a": "b"}, LL: [][]int32{{1}, {}}, MP: map[string]*zoo.Small{"p": x}, Ptrs: []*zoo.Small{x}},
-		zoo.HoldRecList{Kids: zoo.RecList{zoo.RecList{}, nil}, N: 1}, zoo.HoldRecMap{M: zoo.RecMap{"a": zoo.RecMap{}}},
+		zoo.Slices{I32s: []int32{1, 2}, Ss: []string{"a"}}, zoo.HoldRecList{Kids: zoo.RecList{zoo.RecList{}, nil}, N: 1}, zoo.HoldRecMap{M: zoo.RecMap{"a": zoo.RecMap{}}},
 		n2, zoo.Five{A: 1, B: "b", C: 2, D: true, E: 0.5}, g.String(40, -1), g.String(2100, 0), make([]byte, 4200),
 	}
 	all := append([]interface{}{}, vals...)
